@@ -582,6 +582,19 @@ theorem doubleJac_refines (Q : JacPoint) (hQ : JValid p c Q) :
 theorem doubleJac_valid (Q : JacPoint) (hQ : JValid p c Q) : JValid p c (doubleJac c Q) :=
   (doubleJac_spec hp Q hQ).1
 
+/-- T1c, spelling 1 (`_a_is_zero`): `W = 3X²` -/
+theorem doubleJac_refines_a_zero (_ha : c.a = 0) (Q : JacPoint) (hQ : JValid p c Q) :
+    absJ p c (doubleJac c Q) = absJ p c Q + absJ p c Q := doubleJac_refines hp Q hQ
+
+/-- T1c, spelling 2 (`_a_is_minus_3`): `W = 3(X - Z²)(X + Z²)` -/
+theorem doubleJac_refines_a_minus_3 (_ha : c.a = c.p - 3) (Q : JacPoint) (hQ : JValid p c Q) :
+    absJ p c (doubleJac c Q) = absJ p c Q + absJ p c Q := doubleJac_refines hp Q hQ
+
+/-- T1c, spelling 3 (general `a`): `W = 3X² + a·Z⁴` -/
+theorem doubleJac_refines_general (_h0 : c.a ≠ 0) (_h3 : c.a ≠ c.p - 3) (Q : JacPoint)
+    (hQ : JValid p c Q) :
+    absJ p c (doubleJac c Q) = absJ p c Q + absJ p c Q := doubleJac_refines hp Q hQ
+
 /-- T1d: `negate_jac` computes the inverse. -/
 theorem negateJac_spec (Q : JacPoint) (hQ : JValid p c Q) :
     JValid p c (negateJac c Q) ∧ absJ p c (negateJac c Q) = -absJ p c Q := by
